@@ -665,6 +665,9 @@ class ExcludeRegionState(object):  # pylint: disable=too-many-instance-attribute
 
         isMove = False
 
+        # Z height the tool is physically at before this command is applied
+        priorZ = self.position.Z_AXIS.current
+
         if (finalZ is not None):
             self.position.Z_AXIS.setLogicalPosition(finalZ)
             isMove = True
@@ -699,7 +702,12 @@ class ExcludeRegionState(object):  # pylint: disable=too-many-instance-attribute
             # for Marlin 1.1.9).
             returnCommands = self._processNonMove(cmd, deltaE)
         elif (self.isAnyPointExcluded(*xyPairs)):
+            wasExcluding = self.excluding
             returnCommands = self._processExcludedMove(cmd, deltaE)
+            if (self.excluding and not wasExcluding):
+                # The move entering the region is not executed, so the tool physically stays at the
+                # Z height it had before this command (used to order the Z move when exiting)
+                self.lastPosition.Z_AXIS.current = priorZ
         elif (self.excluding):
             # Moving from an excluded region into a non-excluded region.
             # Processes the necessary commands to move the tool to the new position specified by the
